@@ -88,27 +88,37 @@ def run(tier, seed):
     if r.ok:
         v.cov["traces_validated_against_impl"] = len(scen)
     else:
-        # which scenario? count reset events up to the rejected / violating position
-        m = re.search(r"TRACE REJECTED at event\", (\d+)", r.text)
-        pos = int(m.group(1)) if m else None
-        inv = r.violated
-        if inv:
+        def rejected_at(res):
+            m = re.search(r'TRACE REJECTED at event",\s*(\d+)', res.text)
+            return int(m.group(1)) if m else None
+
+        def issued_of(res):
+            st = re.findall(r"issued = (<<.*?>>)\n", res.text, re.S)
+            return re.sub(r"\s+", " ", st[-1])[:600] if st else None
+
+        pos = rejected_at(r)
+        ev = events[pos - 1] if pos and pos - 1 < len(events) else None
+        if r.violated:
             # an invariant of C16 fails in a state of the recorded execution
-            st = re.findall(r"issued = (<<.*?>>)\n", r.text)
-            v.violation(f"recorded execution of the real allocator violates {inv}", {"issued": st[-1][:600] if st else None, "tlc_log": f"out/{PID}/tlc_trace_strict.log"})
+            v.violation(f"recorded execution of the real allocator violates {r.violated}", {"issued": issued_of(r), "tlc_log": f"out/{PID}/tlc_trace_strict.log"})
         else:
-            # the execution is not a behaviour of the implementation-shaped spec: look at it under the weakest spec
-            r2 = lib.tlc("trace/Trace_PidAlloc.tla", "trace/Trace_PidAlloc_FALSE.cfg", PID, "trace_weak", workers=1, env={"TRACE": tp}, timeout=3000)
-            ev = events[pos - 1] if pos and pos - 1 < len(events) else None
-            if r2.violated:
-                st = re.findall(r"issued = (<<.*?>>)\n", r2.text)
-                v.violation(f"recorded execution of the real allocator violates {r2.violated} (and is not a behaviour of the locked spec from event {pos})",
-                            {"first_unmatched_event": ev, "issued": st[-1][:600] if st else None})
-            elif r2.ok:
-                v.add_drift(f"recorded execution is not a behaviour of the locked spec from event {pos} on, but every C16 invariant holds on it", {"event": ev})
-                v.cov["traces_validated_against_impl"] = len(scen)
-            else:
-                raise lib.ToolError(f"trace rejected by both trace specs at event {pos}: {ev}; see out/{PID}/tlc_trace_*.log")
+            # the execution is not a behaviour of the implementation-shaped spec: explain it with the named deviations
+            # (no mutual exclusion; then also reads of non-current counter values) and evaluate C16's invariants on it
+            decided = False
+            for cfg, name in (("FALSE", "without mutual exclusion"), ("STALE", "without mutual exclusion and with reads of non-current counter values")):
+                r2 = lib.tlc("trace/Trace_PidAlloc.tla", f"trace/Trace_PidAlloc_{cfg}.cfg", PID, "trace_" + cfg.lower(), workers=1, env={"TRACE": tp}, timeout=3000)
+                if r2.violated:
+                    v.violation(f"recorded execution of the real allocator violates {r2.violated} (it is not a behaviour of the locked spec from event {pos}: {json.dumps(ev)}; explained by the spec {name})",
+                                {"first_unmatched_event": ev, "issued": issued_of(r2), "tlc_log": f"out/{PID}/tlc_trace_{cfg.lower()}.log"})
+                    decided = True
+                    break
+                if r2.ok:
+                    v.add_drift(f"recorded execution is not a behaviour of the locked spec from event {pos} on (explained by the spec {name}), but every C16 invariant holds on it", {"event": ev})
+                    v.cov["traces_validated_against_impl"] = len(scen)
+                    decided = True
+                    break
+            if not decided:
+                raise lib.ToolError(f"trace rejected by every trace spec at event {rejected_at(r2)}: see out/{PID}/tlc_trace_*.log")
     kinds = {}
     for s in scen:
         kinds[s["kind"]] = kinds.get(s["kind"], 0) + 1
